@@ -556,5 +556,30 @@ def run(f, fixture, rep, cfg, tier):
                             if l2["kind"] == "const" and raw and set(raw) == {"0"}:
                                 zero = True
                 ok = ok or zero
+        # ... and whether it does so depends on nothing but that number: the only test that may skip the padding is
+        # `padding_required() > 0` (skipping it because the index is empty, or for any other reason, shifts what follows)
+        if ok:
+            from common import ok_assign_blocks as _oks
+            okb_ = set(_oks(b))
+            for c in cs:
+                for d_ in sorted(b.reachable()):
+                    if b.term(d_)["t"] != "switch" or not b.dominates(d_, c.bb):
+                        continue
+                    away = [s_ for s_ in b.succ(d_) if c.bb not in reach_from(b, s_)]
+                    if not away or not any(reach_from(b, s_) & okb_ for s_ in away):
+                        continue
+                    info_ = switch_info(b, d_)
+                    if info_["kind"] == "cmp":
+                        gt_ = render(t.term(info_["stmt"]["rv"]["a"])) + " " + render(t.term(info_["stmt"]["rv"]["b"]))
+                    elif info_["kind"] == "bool" and info_["call"].args:
+                        gt_ = info_["call"].decl.rsplit("::", 1)[-1] + "(" + render(t.term(info_["call"].args[0])) + ")"
+                    elif info_["kind"] in ("discr", "value"):
+                        gt_ = render(t.term(info_["place"]))
+                    else:
+                        dp_ = op_place(b.term(d_)["d"])
+                        gt_ = render(t.term(dp_)) if dp_ is not None else "?"
+                    rep.check("padding_required(" in gt_ and not re.search(r"\bself\.\w|index_entries|store", gt_.replace("padding_required(self)", "")), "R6",
+                              "padding|%s|only-if-nonzero" % fmt_key(b.path), "%s %s the padding unless it is empty" % (fmt_key(b.path), what),
+                              "%s %s the padding only when `%s`: with that test false the padding is left out although padding_required() is not zero" % (b.path, what, gt_[:120]), c.loc())
         rep.check(ok, "R6", "padding|%s" % fmt_key(b.path), "%s %s exactly padding_required() zero bytes" % (fmt_key(b.path), what),
                   "%s no longer %s a buffer of padding_required() bytes" % (b.path, what), b.span)
